@@ -134,9 +134,11 @@ class Fetch(Harness):
     def skeletons(self, tier, seed):
         out = []
         if tier == "quick":
-            recs = [[(1, 1)], [(4, 2)], [(5, 3)], [(5, 2)], [(3, 1), (4, 3)], [(4, 2), (2, 2)]]
+            recs = [[(1, 1)], [(4, 2)], [(5, 3)], [(5, 2)], [(3, 1), (4, 3)], [(4, 2), (2, 2)],
+                    [(3, 3), (2, 3)], [(2, 2), (2, 2), (1, 2)]]         # single-line records followed by records that are not longer
         else:
-            recs = [[(l, w)] for l in (1, 2, 3, 5, 6, 7) for w in (1, 2, 3, 4)] + [[(3, 1), (4, 3)], [(4, 2), (2, 2)], [(7, 3), (6, 2), (1, 1)]]
+            recs = [[(l, w)] for l in (1, 2, 3, 5, 6, 7) for w in (1, 2, 3, 4)] + [[(3, 1), (4, 3)], [(4, 2), (2, 2)], [(7, 3), (6, 2), (1, 1)],
+                                                                                     [(3, 3), (2, 3)], [(2, 2), (2, 2), (1, 2)], [(4, 4), (4, 4), (3, 4)]]
         for rs in recs:
             for crlf in (False, True):
                 for mode in ("whole", "plain", "fast"):
@@ -174,7 +176,8 @@ class Fetch(Harness):
             ix = ifa.IndexedFasta(fa)
             res = dict(lengths=ix.get_contig_lengths())
             if skel["mode"] == "whole":
-                res["seqs"] = {r["name"]: ctx.lst(ix[r["name"]].raw()) for r in rows}
+                kept = {r["name"]: ix[r["name"]] for r in rows}       # all contigs are fetched (and kept) before any is looked at
+                res["seqs"] = {nm: ctx.lst(v.raw()) for nm, v in kept.items()}
                 return res
             names = [rows[r]["name"] for r in skel["targets"]]
             m = len(names)
